@@ -189,6 +189,40 @@ Theorem cbf_at_most_once b k ops p : snd (cbf_step b (CTimeout k)) = Some p ->
                                 (combine ops (snd (cbf_run b' ops)))).
 Proof. intros S H b'. apply cbf_absent_stays; [apply (cbf_timeout_sends_buffered b k p S) | exact H]. Qed.
 
+(* the SECOND cancellation path: a copy of k reaches gn_area_cbf_forwarding while k is still buffered (duplicate packet
+   detection did not know it any more: the sequence number had left the ring, or the entry of the source had expired).
+   That step hands nothing to the link layer, removes k, and nothing is sent for k afterwards until k is buffered anew *)
+Theorem cbf_duplicate_cancels b k p q ops : buf_find b k = Some q ->
+  forallb (fun o => negb (rebuffers k o)) ops = true ->
+  snd (cbf_step b (CBuf k p)) = None /\
+  let b' := fst (cbf_step b (CBuf k p)) in
+  buf_find b' k = None /\
+  Forall (fun x => x = None) (map (fun po => match po with (CTimeout k', Some p) => if list_eqb k' k then Some p else None | _ => None end)
+                                (combine ops (snd (cbf_run b' ops)))).
+Proof.
+  intros F H. cbn [cbf_step]. rewrite F. cbn [fst snd]. split; [reflexivity|].
+  split; [apply buf_find_remove|]. apply cbf_absent_stays; [apply buf_find_remove | exact H].
+Qed.
+
+(* in every run a packet reaches the link layer only at a timer expiry, and it is the packet buffered under that key at that
+   moment: receptions (first copy or duplicate, whichever cancellation path) and cancellations never transmit *)
+Theorem cbf_only_timeout_sends ops : forall b i o p, nth_error ops i = Some o ->
+  nth_error (snd (cbf_run b ops)) i = Some (Some p) ->
+  exists k, o = CTimeout k /\ buf_find (fst (cbf_run b (firstn i ops))) k = Some p.
+Proof.
+  induction ops as [|o0 ops IH]; intros b i o p Ho Hp; [destruct i; discriminate|].
+  cbn [cbf_run] in Hp. destruct (cbf_step b o0) as [b1 out] eqn:S. destruct (cbf_run b1 ops) as [b2 outs] eqn:R.
+  cbn [snd] in Hp. destruct i as [|i]; cbn [nth_error firstn] in *.
+  - injection Ho as <-. injection Hp as ->. cbn [cbf_run fst].
+    destruct o0 as [k' p'|k'|k']; cbn [cbf_step] in S.
+    + destruct (buf_find b k'); injection S as _ X; discriminate.
+    + injection S as _ X; discriminate.
+    + exists k'. split; [reflexivity|]. destruct (buf_find b k') as [q|]; injection S as _ X; [congruence | discriminate].
+  - cbn [cbf_run]. rewrite S. specialize (IH b1 i o p Ho). rewrite R in IH. cbn [snd] in IH.
+    destruct (IH Hp) as [k [E Fk]]. exists k. split; [exact E|].
+    destruct (cbf_run b1 (firstn i ops)) as [b3 o3]. exact Fk.
+Qed.
+
 (* ============ ego position vector ================================================================== *)
 (* every value read is the initial vector or one that some write stored *)
 Theorem ego_read_was_current ops : forall cur v, In v (ego_run cur ops) ->
